@@ -86,7 +86,8 @@ union ll_pun64 { f64 f; u64 u; };
 #define LL_NOWRAP_MUL(nsw, nuw, U, S, a, b, e) (__CPROVER_assert(!(nsw) || !__CPROVER_overflow_mult((S)(a), (S)(b)), "no signed overflow (mul nsw)"), (e))
 
 /* float -> int: out of range is poison */
-#define LL_FPTOSI(U, S, W, f) ((((f) == (f)) && (f) >= -0x1p##W * 0.5 && (f) < 0x1p##W * 0.5) ? (U)(S)(f) : (U)nondet_u64())
+/* fptosi is defined whenever the truncated value is representable: f in (-2^(W-1) - 1, 2^(W-1)) */
+#define LL_FPTOSI(U, S, W, f) ((((f) == (f)) && ((f) >= -0x1p##W * 0.5 || (f) > -0x1p##W * 0.5 - 1.0) && (f) < 0x1p##W * 0.5) ? (U)(S)(f) : (U)nondet_u64())
 #define LL_FPTOUI(U, W, f) ((((f) == (f)) && (f) > -1.0 && (f) < 0x1p##W) ? (U)(f) : (U)nondet_u64())
 
 /* always-interpreted forms (an operand is a compile-time constant: address arithmetic, scaling by 0.5, 2^k, ...) */
